@@ -386,46 +386,60 @@ func checkC12(c *Check) {
 			return true
 		})
 		c.Hold("R6", "Queue.dispatch:non-blocking", r.FI.Decl.Pos(), blocking == "", "the scheduler goroutine can block in the dispatch callback ("+blocking+"): a retry scheduled by an in-flight attempt then waits for the scheduler while holding what the scheduler waits for (deadlock, shutdown never ends)")
-		// R5: deferred closure with recover
+		// R5: deferred closure with recover – in the attempt goroutine, written as a closure of dispatch or as a
+		// method started with `go`
 		okRec, found := true, false
+		attemptBodies := []ast.Node{r.FI.Decl.Body}
 		ast.Inspect(r.FI.Decl.Body, func(x ast.Node) bool {
-			d, ok := x.(*ast.DeferStmt)
-			if !ok {
-				return true
-			}
-			fl, ok := d.Call.Fun.(*ast.FuncLit)
-			if !ok {
-				return true
-			}
-			hasRecover := false
-			ast.Inspect(fl.Body, func(y ast.Node) bool {
-				if call, ok := y.(*ast.CallExpr); ok {
-					if id, ok := call.Fun.(*ast.Ident); ok && id.Name == "recover" {
-						hasRecover = true
+			if g, ok := x.(*ast.GoStmt); ok {
+				if _, isLit := g.Call.Fun.(*ast.FuncLit); !isLit {
+					if d := p.DeclOf(callee(info, g.Call)); d != nil && d.Decl.Body != nil && d.Pkg == r.FI.Pkg {
+						attemptBodies = append(attemptBodies, d.Decl.Body)
 					}
 				}
-				return true
-			})
-			if !hasRecover {
-				return true
 			}
-			found = true
-			rm := func(info *types.Info, call *ast.CallExpr) bool {
-				return isCall(info, call, "os.Remove", "os.RemoveAll", "~/"+queueRel+".Queue.removeFromDisk", "~/"+queueRel+".Queue.tryRemoveDanglingFile")
-			}
-			ast.Inspect(fl.Body, func(y ast.Node) bool {
-				if call, ok := y.(*ast.CallExpr); ok {
-					if rm(info, call) {
-						okRec = false
-					}
-					if cf := p.DeclOf(callee(info, call)); cf != nil && p.MayCall(cf, rm, 2, nil) {
-						okRec = false
-					}
-				}
-				return true
-			})
 			return true
 		})
+		for _, ab := range attemptBodies {
+			ast.Inspect(ab, func(x ast.Node) bool {
+				d, ok := x.(*ast.DeferStmt)
+				if !ok {
+					return true
+				}
+				fl, ok := d.Call.Fun.(*ast.FuncLit)
+				if !ok {
+					return true
+				}
+				hasRecover := false
+				ast.Inspect(fl.Body, func(y ast.Node) bool {
+					if call, ok := y.(*ast.CallExpr); ok {
+						if id, ok := call.Fun.(*ast.Ident); ok && id.Name == "recover" {
+							hasRecover = true
+						}
+					}
+					return true
+				})
+				if !hasRecover {
+					return true
+				}
+				found = true
+				rm := func(info *types.Info, call *ast.CallExpr) bool {
+					return isCall(info, call, "os.Remove", "os.RemoveAll", "~/"+queueRel+".Queue.removeFromDisk", "~/"+queueRel+".Queue.tryRemoveDanglingFile")
+				}
+				ast.Inspect(fl.Body, func(y ast.Node) bool {
+					if call, ok := y.(*ast.CallExpr); ok {
+						if rm(info, call) {
+							okRec = false
+						}
+						if cf := p.DeclOf(callee(info, call)); cf != nil && p.MayCall(cf, rm, 2, nil) {
+							okRec = false
+						}
+					}
+					return true
+				})
+				return true
+			})
+		}
 		c.Hold("R5", "Queue.dispatch:recover", r.FI.Decl.Pos(), found && okRec, "the panic handler of a delivery attempt can remove spool files (a crashing attempt must leave the message for inspection/restart)")
 	}
 	// R8: the parallelism semaphore is released only by a goroutine that acquired it: the acquire precedes the
@@ -439,11 +453,16 @@ func checkC12(c *Check) {
 			if !ok {
 				return true
 			}
-			fl, ok := g.Call.Fun.(*ast.FuncLit)
-			if !ok {
+			var abody *ast.BlockStmt
+			if fl, ok := g.Call.Fun.(*ast.FuncLit); ok {
+				abody = fl.Body
+			} else if d := p.DeclOf(callee(info, g.Call)); d != nil && d.Decl.Body != nil && d.Pkg == r.FI.Pkg {
+				abody = d.Decl.Body // the attempt written as a method: `go q.deliverSlot(slot)`
+			}
+			if abody == nil {
 				return true
 			}
-			lf := p.FlowOf(info, fl.Body, "dispatch$attempt")
+			lf := p.FlowOf(info, abody, "dispatch$attempt")
 			semField := func(e ast.Expr) bool { fv := fieldOf(info, e); return fv != nil && fv.Name() == "deliverySemaphore" }
 			var acquires, defers []Pt
 			for _, pt := range lf.Points() {
